@@ -18,7 +18,10 @@ def one_fit(rng, fam, kind, ns, nu, rho, max_iter, trunc, solver_iters=None):
         sp['max_iterations'] = solver_iters           # the solver gives up early: status 'unknown', meaningless iterate
     kw = dict(spectral_radius=rho, max_iter=max_iter, alpha=float(rng.choice([0, 0.1])), solver_params=sp)
     if fam == 'edmd':
-        reg = L.LmiEdmdSpectralRadiusConstr(inv_method=str(rng.choice(['svd', 'eig', 'chol', 'sqrt'])), **kw)
+        inv = str(rng.choice(['svd', 'eig', 'chol', 'sqrt']))
+        if inv == 'svd' and trunc == 'edmd_trunc' and ns + nu >= 2:
+            kw['tsvd'] = pykoop.Tsvd('rank', int(rng.integers(max(1, ns), ns + nu)))
+        reg = L.LmiEdmdSpectralRadiusConstr(inv_method=inv, **kw)
     else:
         tu = None if trunc is None else pykoop.Tsvd(*trunc)
         reg = L.LmiDmdcSpectralRadiusConstr(tsvd_unshifted=tu, **kw)
@@ -56,7 +59,7 @@ def run(res, tier):
         ns = int(rng.integers(1, 4)); nu = int(rng.integers(0, 3))
         rho = float(rng.choice([0.3, 0.6, 0.8, 0.9, 1.0, 1.2]))
         max_iter = int(rng.choice([1, 2, 3, 5]))
-        trunc = None
+        trunc = 'edmd_trunc' if (fam == 'edmd' and rng.random() < 0.5) else None
         if fam == 'dmdc' and ns + nu >= 2 and rng.random() < 0.6:
             trunc = ('rank', int(rng.integers(max(1, ns), ns + nu + 1))) if rng.random() < 0.7 else ('cutoff', 1e-3)
         solver_iters = int(rng.integers(1, 5)) if cid % 4 == 3 else None
